@@ -312,6 +312,8 @@ macro_rules! backend {
                     "local" => key_from::<$V, Local>(b)?.id().to_string(),
                     "public" => key_from::<$V, Public>(b)?.id().to_string(),
                     "secret" => key_from::<$V, Secret>(b)?.id().to_string(),
+                    "pke-public" => key_from::<$V, paseto_core::version::PkePublic>(b)?.id().to_string(),
+                    "pke-secret" => key_from::<$V, paseto_core::version::PkeSecret>(b)?.id().to_string(),
                     other => panic!("kind {other}"),
                 })
             })
@@ -323,6 +325,8 @@ macro_rules! backend {
                     "local" => key_from::<$V, Local>(b)?.expose_key().to_string(),
                     "public" => key_from::<$V, Public>(b)?.to_string(),
                     "secret" => key_from::<$V, Secret>(b)?.expose_key().to_string(),
+                    "pke-public" => key_from::<$V, paseto_core::version::PkePublic>(b)?.expose_key().to_string(),
+                    "pke-secret" => key_from::<$V, paseto_core::version::PkeSecret>(b)?.expose_key().to_string(),
                     other => panic!("kind {other}"),
                 })
             })
